@@ -150,7 +150,7 @@ def parseStmt : List String → Option Stmt
 def pageSizeOk (n : Nat) : Bool := n = 4096 || n = 8192 || n = 16384 || n = 32768 || n = 65536
 
 def parseCfg (ps cache pool mk sib : String) : Option Config :=
-  match parseNatC ps.toList 65536, parseNatC cache.toList 60000, parseNatC pool.toList 16, parseNatC mk.toList 8,
+  match parseNatC ps.toList 65536, parseNatC cache.toList 1000000, parseNatC pool.toList 16, parseNatC mk.toList 8,
         parseNatC sib.toList 4 with
   | some a, some b, some c, some d, some e =>
     if pageSizeOk a && b ≥ 16 && c ≥ 1 && d ≥ 3 && e ≥ 1 then some ⟨a, b, c, d, e⟩ else none
